@@ -486,6 +486,13 @@ static void end_of_run_c02_clean(const cell *c, const char *desc)
 			}
 		}
 	}
+	/* no wedge: whatever was offered (every workload packet was offered more than 3 s before the horizon) has at least been
+	 * read from the tun device; a program that stops reading its tun for good makes no progress however clean the path */
+	for (int t = 0; t < VW_MAXTUN; t++) {
+		vw_tun *tn = &W.tun[t];
+		if (!tn->used || !vw_alive(tn->proc) || tn->rxn <= 0) continue;
+		viol("offered-packets-never-read-on-clean-path", "clean path, %s: %d packets (first tag %d) are still waiting on the tun device of proc %d at the horizon", desc, tn->rxn, tn->rx[tn->rxh & 63].tag, tn->proc);
+	}
 	(void)c;
 }
 
